@@ -504,6 +504,7 @@ impl Case {
             "placement" => "placement",
             "junction" => "junction",
             "multiseg" => "multiseg",
+            "release-role" => "release-role",
             "oom" => "oom",
             _ => "hist",
         };
@@ -539,6 +540,8 @@ pub struct RunInfo {
     pub trace: Vec<(usize, Vec<Ev>)>,
     /// the countdown was really lowered
     pub countdown_applied: bool,
+    /// indices of the operations during which the allocator gave back a whole mapping
+    pub released_at: Vec<usize>,
     pub refusal_hit: bool,
     pub peak_footprint: usize,
     /// one operation made the allocator give back two or more whole mappings
@@ -672,6 +675,9 @@ pub fn run_case(w: &mut World, c: &Case, r: &mut Report, verbose: bool) -> RunIn
             info.trace.push((st.ptr, st.events.clone()));
         }
         let n_released = st.events.iter().filter(|e| matches!(e, Ev::UnmapWhole)).count();
+        if n_released >= 1 {
+            info.released_at.push(i);
+        }
         if n_released >= 2 {
             r.outcome("release-pass-released>=2-segments");
             info.multi_release = true;
